@@ -28,6 +28,21 @@ def count_fn(name):
     return ghost, defs
 
 
+def pred_fn(name, arity=2):
+    """ghost predicate over integer indices: keeps large definitions out of the quantifier bodies that use them.
+    returns (ghost builder, defs(expansion(k, j), n, m))"""
+    from .values import VSpecFn, VBool
+    from .ops import to_int_z
+    f = z3.Function(name, *([I] * arity), B)
+    ghost = lambda it, fr: VSpecFn(lambda interp, args: VBool(f(*[to_int_z(a) for a in args])), name)
+
+    def defs(expansion, n, m=None):
+        if arity == 1:
+            return [(f"{name}.def", f"forall(k, 0, {n}, {name}(k) == ({expansion('k')}))")]
+        return [(f"{name}.def", f"forall(k, 0, {n}, forall(j, 0, {m}, {name}(k, j) == ({expansion('k', 'j')})))")]
+    return ghost, defs
+
+
 def add_count_lemmas(P):
     """abstract statements about any prefix count c of any predicate p, by induction on k"""
     c = z3.Function("c", I, I)
